@@ -68,8 +68,10 @@ CLAIMED = {
               "all six types with arbitrary contents (no exclusion left: lists headed by the internal stream marker round-trip through the escape rule since 8969840), and whole snapshots: decSnapshot(encSnapshot d t) t' = the dataset with exactly the entries still alive at t' (keys expired during "
               "the downtime absent), with an exact characterisation of what the loader makes of any valid dataset and totality of the loader model on every byte string - Lean theorems over a "
               "byte-exact model of rdb.rs; real save/load in-process and one TCP restart per run are compared with the model in both directions (real file -> Lean decoder, Lean encoder -> "
-              "real loader, re-encoding byte-equal to the real file), incl. all size boundaries, 16 dbs, TTLs shorter/longer than a measured downtime, off-grammar and mutated files."),
-        note=TB + "The list/zset load loops are summarised as 'first element then the rest' (argued, validated on corrupted files, not proved equal to the per-element loop); NaN scores excluded; dumps written before the escape rule load as before (snapshot_load_across_versions).",
+              "real loader, re-encoding byte-equal to the real file), incl. all size boundaries, 16 dbs, TTLs shorter/longer than a measured downtime, off-grammar and mutated files; "
+              "a value that takes long to copy and rebuild keeps its deadline to clock granularity (20f1200), a dump loaded and saved again n times keeps every deadline stamp exactly (009601a); "
+              "the engine refuses deadlines beyond i64::MAX ms and the loader such files (engine_refuses_unrepresentable_deadline)."),
+        note=TB + "A stream's last ID (in the dump since 3c61a3a) is not a component of this model: it writes the greatest present ID in its place, byte comparisons blank that text; its survival is C15's. The list/zset load loops are summarised as 'first element then the rest' (argued, validated on corrupted files, not proved equal to the per-element loop); NaN scores excluded; dumps written before the escape rule load as before (snapshot_load_across_versions).",
         ref="DESIGN.md section 5 C09"),
     "C17": dict(
         text=("Proof: gate totality - for EVERY command name (any byte string), argument list, dispatch function and non-authenticated state the reply is an error and the server state is "
@@ -121,8 +123,11 @@ CLAIMED = {
               "dump name is absent or holds the complete bytes of one finished save (exclusive variant = the tree since 8728a37; witness for the old one); per-key consistency: with value, TTL and "
               "sorted-set members read under one lock the record written equals a state the key really had, for every interleaving of client commands with the save loop's reads (witnesses for the "
               "two-lock and length-then-items variants); the loader is total on every byte string, consumes at most its input and (bounded variant) never allocates more than it has read plus one chunk - "
-              "19 Lean theorems; the real server is driven over TCP with hooks failing the n-th write for EVERY n of a dump, parking BGSAVE between its reads while commands run, SAVE during a parked "
-              "BGSAVE, and the real loader in-process on every prefix and on corrupted length fields with an allocation-tracking allocator."),
+              "with the save lock (b09a77b) the same for EVERY saver the server has - SAVE, BGSAVE, the auto-save thread at any moment, SHUTDOWN's unguarded save - waiting in any number and getting the lock in any order, "
+              "no hypothesis on the schedule (dump_always_complete_or_absent_locked) - 20 Lean theorems; the real server is driven over TCP with hooks failing the n-th write for EVERY n of a dump, real RLIMIT_FSIZE "
+              "failures at every size boundary, parking BGSAVE between its reads while commands run, SAVE during a parked BGSAVE, SHUTDOWN during a background save with SIGKILL at the first rename of the dump name; "
+              "the real loader in-process - twice: release arithmetic and the overflow-checked arithmetic of a plain cargo build - on every prefix (what a refused prefix leaves in the engine must be whole keys of "
+              "the whole file: clean partial load), on corrupted length fields and counts with an allocation-tracking allocator."),
         note=TB + "File-system semantics (rename atomic, a failed write leaves a prefix) are assumptions of the Sys model; power-loss durability (fsync ordering) is outside; the switches exclusive/atomic/bounded are read from rdb.rs/server.rs by the translator.",
         ref="DESIGN.md section 5 C10"),
     "C11": dict(
